@@ -191,7 +191,12 @@ impl<'a> Fmt<'a> {
                         size = b as u32;
                     }
                     let first = chain.first().copied().unwrap_or(0);
-                    let mut e = entry_bytes(&name, attr, first, size, ct, mt, fat32);
+                    // a name whose first character is 0xE5 is stored with 0x05 there (0xE5 marks a deleted entry)
+                    let mut stored = name;
+                    if t == "file" && stored[0] == 0xE5 {
+                        stored[0] = 0x05;
+                    }
+                    let mut e = entry_bytes(&stored, attr, first, size, ct, mt, fat32);
                     if t == "file" {
                         self.link_chain(&chain);
                         // fill data: every block of the chain is written (zero padded)
